@@ -13,18 +13,17 @@
 #endif
 typedef unsigned char u8; typedef unsigned int u32; typedef unsigned long u64; typedef unsigned __int128 u128; typedef __int128 s128;
 #ifdef __CPROVER__
-/* exact-width working type: holds any product of two in-range magnitudes plus sign head-room */
-#define WBITS (((2 * VF_BITS + 2 + 7) / 8) * 8)   /* CBMC wants byte-multiple widths for objects in memory */
+/* exact-width working types. Every value AND every intermediate product is < 2^VF_BITS (checked), so storage,
+   addition, division and remainder run at VF_BITS+2 bits; only the multiplier itself is 2*VF_BITS wide. */
+#define WBITS (((VF_BITS + 2 + 7) / 8) * 8)     /* CBMC wants byte-multiple widths for objects in memory */
+#define WWBITS (((2 * VF_BITS + 2 + 7) / 8) * 8)
 typedef unsigned __CPROVER_bitvector[WBITS] W; typedef signed __CPROVER_bitvector[WBITS] SW;
-#define W_IS_EXACT 1
-#elif VF_BITS <= 15
-typedef u32 W; typedef int SW;
-#define WBITS 32
+typedef unsigned __CPROVER_bitvector[WWBITS] WW; typedef signed __CPROVER_bitvector[WWBITS] SWW;
 #elif VF_BITS <= 31
-typedef u64 W; typedef long SW;
+typedef u64 W; typedef long SW; typedef u64 WW; typedef long SWW;
 #define WBITS 64
 #elif VF_BITS <= 63
-typedef u128 W; typedef s128 SW;
+typedef u128 W; typedef s128 SW; typedef u128 WW; typedef s128 SWW;
 #define WBITS 128
 #else
 #error VF_BITS too large
@@ -69,7 +68,7 @@ static inline void SETM(mpz_ptr r, int sign, W m) {
 static inline void SETS(mpz_ptr r, SW v) { if (v < 0) SETM(r, -1, (W)(-v)); else SETM(r, 1, (W)v); }
 static inline SW SVAL(mpz_srcptr a) { return a->_mp_size < 0 ? -(SW)MAG(a) : (SW)MAG(a); }
 /* a*b with overflow of the working type reported as bound */
-static inline W MULW(W a, W b) { return a * b; }   /* a, b < 2^VF_BITS, W holds 2*VF_BITS bits */
+static inline W MULW(W a, W b) { WW p = (WW)a * (WW)b; if (p >= (WW)LIM) BOUND(); return (W)p; }   /* a, b < 2^VF_BITS; the product must be too */
 static W from_ul(unsigned long v) { W w = (W)v; if ((unsigned long)w != v) BOUND(); return w; }
 
 void __gmpz_init(mpz_ptr r) { r->_mp_alloc = 1; r->_mp_size = 0; r->_vf_lo = 0; r->_vf_hi = 0; }
@@ -212,13 +211,13 @@ unsigned long __gmpz_gcd_ui(mpz_ptr r, mpz_srcptr a, unsigned long b) { W g = gc
 void __gmpz_lcm(mpz_ptr r, mpz_srcptr a, mpz_srcptr b) { W x = MAG(a), y = MAG(b); if (x == 0 || y == 0) { SETM(r, 0, 0); return; } SETM(r, 1, MULW(x / gcdw(x, y), y)); }
 /* extended Euclid on magnitudes: g = s*a + t*b */
 static W egcd(W a, W b, SW *s, SW *t) {
-  SW s0 = 1, s1 = 0, t0 = 0, t1 = 1; unsigned i;
+  SWW s0 = 1, s1 = 0, t0 = 0, t1 = 1; unsigned i;
   for (i = 0; i < EUCLID_STEPS && b != 0; ++i) {
     W q = a / b, r = a % b;
-    SW s2 = s0 - (SW)q * s1, t2 = t0 - (SW)q * t1;
+    SWW s2 = s0 - (SWW)q * s1, t2 = t0 - (SWW)q * t1;
     a = b; b = r; s0 = s1; s1 = s2; t0 = t1; t1 = t2;
   }
-  *s = s0; *t = t0; return a;
+  *s = (SW)s0; *t = (SW)t0; return a;
 }
 void __gmpz_gcdext(mpz_ptr g, mpz_ptr s, mpz_ptr t, mpz_srcptr a, mpz_srcptr b) {
   SW ss, tt; int sa = a->_mp_size, sb = b->_mp_size; W x = MAG(a), y = MAG(b);
@@ -263,7 +262,7 @@ int __gmpz_jacobi(mpz_srcptr a, mpz_srcptr n) {
 int __gmpz_probab_prime_p(mpz_srcptr a, int reps) {
   (void)reps; W n = MAG(a); W d;
   if (n < 2) return 0; if (n < 4) return 2; if ((n & 1) == 0) return 0;
-  for (d = 3; d < ((W)1 << ((VF_BITS + 1) / 2)) + 2 && d * d <= n; d += 2) if (n % d == 0) return 0;
+  for (d = 3; d < ((W)1 << ((VF_BITS + 1) / 2)) + 2 && (WW)d * (WW)d <= (WW)n; d += 2) if (n % d == 0) return 0;
   return 2;
 }
 void __gmpz_nextprime(mpz_ptr r, mpz_srcptr a) {
@@ -313,10 +312,10 @@ void __gmpz_pow_ui(mpz_ptr r, mpz_srcptr b, unsigned long e) {
 }
 void __gmpz_sqrt(mpz_ptr r, mpz_srcptr a) {
   W n = MAG(a), x = 0; int i; if (a->_mp_size < 0) DIVZERO();
-  for (i = (VF_BITS + 1) / 2; i >= 0; --i) { W t = x | (((W)1) << i); if (t * t <= n) x = t; }
+  for (i = (VF_BITS + 1) / 2; i >= 0; --i) { W t = x | (((W)1) << i); if ((WW)t * (WW)t <= (WW)n) x = t; }
   SETM(r, 1, x);
 }
-int __gmpz_perfect_square_p(mpz_srcptr a) { __mpz_struct t; if (a->_mp_size < 0) return 0; __gmpz_init(&t); __gmpz_sqrt(&t, a); return MAG(&t) * MAG(&t) == MAG(a); }
+int __gmpz_perfect_square_p(mpz_srcptr a) { __mpz_struct t; if (a->_mp_size < 0) return 0; __gmpz_init(&t); __gmpz_sqrt(&t, a); return (WW)MAG(&t) * (WW)MAG(&t) == (WW)MAG(a); }
 
 /* ---- bits ---- */
 static unsigned bitlen(W x) { unsigned n = 0; unsigned i; for (i = 0; i < VF_BITS + 1 && x != 0; ++i) { x >>= 1; n++; } return n; }
@@ -372,7 +371,7 @@ int __gmpz_set_str(mpz_ptr r, const char *s, int base) {
     unsigned char c = (unsigned char)s[i];
     if (is_space(c)) continue;
     int d = digit_of(c, base); if (d < 0) return -1;
-    v = v * (W)base + (W)d; if (v >= LIM) BOUND();
+    { WW vv = (WW)v * (WW)base + (WW)d; if (vv >= (WW)LIM) BOUND(); v = (W)vv; }
     ++nd;
   }
   if (nd == 0) return -1;
